@@ -106,6 +106,11 @@ impl SessionAttributes {
         self.connect_retry_time
     }
 
+    #[cfg(nlnetlabs_routecore_verif)]
+    pub fn verif_connect_retry_counter(&self) -> usize {
+        self.connect_retry_counter
+    }
+
     pub fn reset_connect_retry_counter(&mut self) {
         self.connect_retry_counter = 0;
     }
